@@ -15,7 +15,7 @@ def run(ctx):
                 "and linearity of each matrix term in its coefficient field; non-trivial = N>=2 on some axis")
     ctx.prove("C17")
     from suites import symsuite
-    run_suites(ctx, ["symbolic"], runner=symsuite.run_suite, relevant=symsuite.relevant_for(['diffusion', 'central', 'divergence', 'gradient', 'linmean', 'arithmean', 'bcM', 'bcR', 'ghosts', 'upwind', 'tvd', 'tvdfsarg']))
+    run_suites(ctx, ["symbolic"], runner=symsuite.run_suite, relevant=symsuite.relevant_for(['diffusion', 'central', 'divergence', 'gradient', 'linmean', 'arithmean', 'bcM', 'bcR', 'ghosts', 'upwind', 'tvd', 'tvdfsarg', 'harmmean', 'solveL', 'solveR']))
     run_suites(ctx, ["mesh"], runner=meshsuite.run_suite)
     run_suites(ctx, ["diffusion", "conv_central", "conv_upwind", "tvd", "divergence", "gradient", "means"], relevant=REL)
     run_suites(ctx, ["bc_ghost", "bc_rows"], runner=bcsuite.run_suite)
